@@ -2,6 +2,7 @@
 from __future__ import annotations
 
 import ast
+import re
 
 from sa.absint import Evaluator, Record
 from sa.core import AnalysisError, call_name, const, literal, text
@@ -23,6 +24,7 @@ def run(chk):
     r18b(chk)
     r18c(chk)
     r18d(chk)
+    r18g(chk)
     from .c03 import r03a, r03b
 
     r03a(chk, 'R18.e')
@@ -57,20 +59,40 @@ def _value_fn(chk):
     return chk.repo.fn(SER, 'CSSSerializer.do_css_Value')
 
 
-def r18b(chk, rid='R18.b'):
-    chk.rule(rid, 'zero lengths only: the units dropped from a zero value are CSS length units (a zero angle, time, frequency or percentage keeps its unit); the unit is dropped only under value == 0')
+def _eval_number(chk, vtype, dim, num, sign, omit):
+    """Text that CSSSerializer.do_css_Value writes for a numeric value, by evaluating its
+    syntax tree (helpers resolved in the class; Out modelled as plain concatenation)."""
+    from sa.absint import Evaluator, Record
+
     fn = _value_fn(chk)
-    tuples = [n for n in ast.walk(fn) if isinstance(n, ast.Compare) and isinstance(n.ops[0], ast.In) and 'dimension' in text(n.left) and isinstance(n.comparators[0], ast.Tuple)]
-    if len(tuples) != 1:
-        raise AnalysisError('do_css_Value: unit tuple not found')
-    units = {const(e) for e in tuples[0].comparators[0].elts}
-    bad = sorted(units - LENGTH_UNITS)
-    chk.ob(rid, SER, 'CSSSerializer.do_css_Value', f'zero is written without unit only for lengths {sorted(units)}', not bad, f'{bad} are no length units: 0deg / 0s / 0% would lose their unit')
-    m = chk.repo.mod(SER)
-    par = m.parents[tuples[0]]
-    up = m.parents.get(par)
-    ok = isinstance(par, ast.If) and isinstance(up, ast.If) and text(up.test) == 'value.value == 0' and par in up.body
-    chk.ob(rid, SER, 'CSSSerializer.do_css_Value', 'the unit is dropped only under `value.value == 0`', ok, 'a non-zero value could lose its unit')
+    parts = []
+    out = Record(append=lambda val, type_=None, *a, **k: parts.append(val), value=lambda: ''.join(parts))
+    me = Record(prefs=Record(omitLeadingZero=omit))
+    val = Record(type=vtype, dimension=dim, value=num, _sign=sign)
+    ev = Evaluator(fn, intrinsics={'Out': lambda ser: out}, module=chk.repo.mod(SER), cls='CSSSerializer')
+    return ev.run(self=me, value=val)
+
+
+NUM_RE = re.compile(r'^([+-]?)(\d*)(\.?)(\d*)(.*)$', re.S)
+UNITS = sorted(LENGTH_UNITS - {'rem', 'ch', 'vw', 'vh', 'vmin', 'vmax', 'q'}) + ['deg', 'rad', 'grad', 's', 'ms', 'hz', 'khz', 'dpi', 'fr', 'rem', 'vw']
+
+
+def r18b(chk, rid='R18.b'):
+    chk.rule(rid, 'zero lengths only: CSSSerializer.do_css_Value evaluated on its syntax tree for zero and non-zero values of every unit: the unit is written unchanged, except that a zero *length* may be written unit-less (a zero angle, time, frequency, resolution or percentage keeps its unit; no non-zero value loses it)')
+    n = 0
+    for omit in (False, True):
+        for dim in UNITS + ['%']:
+            vtype = 'PERCENTAGE' if dim == '%' else 'DIMENSION'
+            for num, sign in ((0, ''), (0.0, '-'), (0, '+'), (5, ''), (0.5, ''), (-0.25, '-')):
+                got = _eval_number(chk, vtype, dim, num, sign, omit)
+                n += 1
+                mo = NUM_RE.match(got) if isinstance(got, str) else None
+                unit = mo.group(5) if mo else None
+                ok = unit == dim or (unit == '' and num == 0 and dim in LENGTH_UNITS)
+                if not ok or (num == 0 and sign == '' and not omit):
+                    chk.ob(rid, SER, 'CSSSerializer.do_css_Value', f'{num}{dim} keeps its unit' + (' (or drops it: zero length)' if num == 0 and dim in LENGTH_UNITS else ''), ok,
+                           f'written as {got!r}: ' + ('a zero that is not a length loses its unit' if num == 0 else 'a non-zero value loses or changes its unit'))
+    chk.ob(rid, SER, 'CSSSerializer.do_css_Value', f'all {n} unit cases evaluated', True)
 
 
 def r18c(chk, rid='R18.c'):
@@ -93,54 +115,47 @@ def r18c(chk, rid='R18.c'):
 
 
 def r18d(chk, rid='R18.d'):
-    chk.rule(rid, 'guards of the number formatter: a statement that strips the leading zero of a formatted number is control-dependent on a magnitude test -1 < v < 1 (and on the omitLeadingZero preference); integral values are written through int(), never through %f; an explicit + sign is kept for non-zero values only')
-    fn = _value_fn(chk)
-    m = chk.repo.mod(SER)
+    chk.rule(rid, 'the number formatter decided by evaluation: CSSSerializer.do_css_Value (with _strip_zeros, resolved in the class) is evaluated on its syntax tree for representatives of every case its comparisons distinguish - zero, integral (small, huge), non-integral below and above magnitude one, each sign spelling, literals with one to six fractional digits - under omitLeadingZero on and off: the text denotes exactly the same real number, an explicit + is kept for non-zero values only, the leading zero is dropped only under the preference and only the one before the decimal point')
+    from fractions import Fraction
 
-    def guards(node):
-        out = []
-        child, n = node, m.parents.get(node)
-        while n is not None and n is not fn:
-            if isinstance(n, ast.If):
-                out.append((n, child in n.body))
-            child, n = n, m.parents.get(n)
-        return out
-
-    strips = []
-    for n in ast.walk(fn):
-        if isinstance(n, ast.Assign) and isinstance(n.targets[0], ast.Name):
-            v = n.value
-            t = text(v)
-            is_strip = False
-            if isinstance(v, ast.Subscript) and isinstance(v.slice, ast.Slice) and const(v.slice.lower) == 1 and v.slice.upper is None:
-                is_strip = True  # v[1:]
-            if isinstance(v, ast.BinOp) and isinstance(v.op, ast.Add) and '[0]' in text(v.left) and '[2:]' in text(v.right):
-                is_strip = True  # v[0] + v[2:]
-            if isinstance(v, ast.Call) and isinstance(v.func, ast.Attribute) and v.func.attr in ('replace', 'lstrip') and v.args and const(v.args[0]) in ('0.', '0', '-0.', '+0.'):
-                is_strip = True
-            if is_strip:
-                strips.append(n)
-    if len(strips) < 1:
-        raise AnalysisError('do_css_Value: leading-zero stripping statements not found')
-    for s in strips:
-        gs = guards(s)
-        mag = any(inb and '-1 < value.value < 1' in text(g.test) for g, inb in gs)
-        pref = any(inb and 'self.prefs.omitLeadingZero' in text(g.test) for g, inb in gs)
-        chk.ob(rid, SER, 'CSSSerializer.do_css_Value', f'`{text(s)}` only for |value| < 1 and under omitLeadingZero', mag and pref,
-               'the first "0." of a larger number would be removed too: 10.5px becomes 1.5px')
-    fmts = [n for n in ast.walk(fn) if isinstance(n, ast.BinOp) and isinstance(n.op, ast.Mod) and const(n.left) == '%f']
-    if not fmts:
-        raise AnalysisError("do_css_Value: '%f' formatting not found")
-    for f in fmts:
-        gs = guards(f)
-        ok = any((not inb) and 'value.value == int(value.value)' in text(g.test) for g, inb in gs) or any((not inb) and 'int(value.value)' in text(g2.test) for g, inb in gs for g2 in [g] + _elif_chain_before(m, g))
-        chk.ob(rid, SER, 'CSSSerializer.do_css_Value', f"`{text(f)}` is reached only for non-integral values", ok,
-               "integers are sent through a C double and '%f': large integers change (2**53 + 1 -> 2**53)")
-    ints = [n for n in ast.walk(fn) if isinstance(n, ast.Assign) and text(n.value) == 'str(int(value.value))']
-    chk.ob(rid, SER, 'CSSSerializer.do_css_Value', 'integral values are written as str(int(v))', len(ints) == 1, f'{len(ints)}')
-    src = ast.unparse(fn)
-    chk.ob(rid, SER, 'CSSSerializer.do_css_Value', "an explicit '+' is kept for non-zero values", "value.value != 0 and value._sign == '+'" in src and "sign = '+'" in src, '', shape=True)
-    chk.ob(rid, SER, 'CSSSerializer.do_css_Value', 'sign, number and unit are concatenated in this order', 'out.append(sign + val + dim, value.type)' in src, '', shape=True)
+    cases = []
+    for num in (0, 1, 7, 10, 100, 2 ** 53 + 1, 10 ** 15, 0.5, 0.05, 0.000001, 0.123456, 0.999999, 1.5, 10.5, 10.05, 100.000001, 1234.5678, 99999.999999):
+        for neg in (False, True):
+            if num == 0:
+                cases += [(0, ''), (0, '+'), (0, '-')] if not neg else []
+                continue
+            v = -num if neg else num
+            cases += [(v, '-')] if neg else [(v, ''), (v, '+')]
+    n = 0
+    for omit in (False, True):
+        for vtype, dim in (('NUMBER', None), ('DIMENSION', 'px'), ('PERCENTAGE', '%'), ('DIMENSION', 'deg')):
+            for num, sign in cases:
+                got = _eval_number(chk, vtype, dim, num, sign, omit)
+                n += 1
+                mo = NUM_RE.match(got) if isinstance(got, str) else None
+                problems = []
+                if not mo or not (mo.group(2) or mo.group(4)):
+                    problems.append('not a number')
+                else:
+                    sg, ip, dot, fp = mo.group(1), mo.group(2), mo.group(3), mo.group(4)
+                    denotes = Fraction((sg if sg == '-' else '') + (ip or '0') + ('.' + fp if fp else ''))
+                    if denotes != Fraction(str(num)) and denotes != Fraction(num):
+                        problems.append(f'denotes {denotes} instead of {num}')
+                    if (sg == '+') != (sign == '+' and num != 0):
+                        problems.append("explicit '+' " + ('lost' if sign == '+' else 'invented'))
+                    if num < 0 and sg != '-':
+                        problems.append('minus sign lost')
+                    if 0 < abs(num) < 1 and num != int(num):
+                        if omit and ip != '':
+                            problems.append('leading zero kept under omitLeadingZero')
+                        if not omit and ip != '0':
+                            problems.append('leading zero dropped without the preference')
+                    if fp.endswith('0') and len(fp) > 1:
+                        problems.append('redundant trailing zeros')
+                if problems or n <= 2:
+                    chk.ob(rid, SER, 'CSSSerializer.do_css_Value', f'{sign if sign == "+" else ""}{num}{dim or ""} (omitLeadingZero={omit})', not problems, f'written as {got!r}: ' + '; '.join(problems))
+    chk.extra['number_cases_evaluated'] = n
+    chk.ob(rid, SER, 'CSSSerializer.do_css_Value', f'all {n} number cases evaluated', True)
 
 
 def _elif_chain_before(m, ifnode):
@@ -155,3 +170,44 @@ def _elif_chain_before(m, ifnode):
         else:
             break
     return out
+
+
+def r18g(chk, rid='R18.g'):
+    chk.rule(rid, 'hue is an angle: in ColorValue._setCssText the first argument of colorsys.hls_to_rgb derives from the parsed hue component only by scaling with the constant 360 (division, optionally a modulo): no clamping or truncating function (min, max, abs, int, round) lies on its def-use chain, because hsl(400, ...) denotes the same colour as hsl(40, ...); and the components are passed in the order colorsys expects (h, l, s)')
+    rel = 'cssutils/css/value.py'
+    m = chk.repo.mod(rel)
+    fn = m.get('ColorValue._setCssText')
+    calls = [c for c in ast.walk(fn) if isinstance(c, ast.Call) and text(c.func).endswith('hls_to_rgb')]
+    if len(calls) != 1 or len(calls[0].args) != 3:
+        raise AnalysisError('ColorValue._setCssText: colorsys.hls_to_rgb call not found')
+
+    def chain(expr, depth=0):
+        """All expressions on the def-use chain of `expr` inside the function."""
+        out = [expr]
+        if depth > 5:
+            return out
+        for x in ast.walk(expr):
+            if isinstance(x, ast.Name):
+                for st in ast.walk(fn):
+                    if isinstance(st, ast.Assign):
+                        for t in st.targets:
+                            if isinstance(t, ast.Name) and t.id == x.id:
+                                out += chain(st.value, depth + 1)
+                            elif isinstance(t, ast.Tuple) and isinstance(st.value, ast.Tuple) and len(t.elts) == len(st.value.elts):
+                                for a, b in zip(t.elts, st.value.elts):
+                                    if isinstance(a, ast.Name) and a.id == x.id:
+                                        out += chain(b, depth + 1)
+        return out
+
+    hue = chain(calls[0].args[0])
+    src = ' ; '.join(text(e) for e in hue)
+    if 'raw[0]' not in src:
+        raise AnalysisError(f'ColorValue._setCssText: hue argument `{text(calls[0].args[0])}` does not derive from raw[0]')
+    bad = sorted({call_name(c) for e in hue for c in ast.walk(e) if isinstance(c, ast.Call) and call_name(c) in ('min', 'max', 'abs', 'int', 'round')})
+    chk.ob(rid, rel, 'ColorValue._setCssText', 'the hue reaches colorsys.hls_to_rgb without clamping or truncation', not bad,
+           f'{bad} applied to the hue: hsl(400, 100%, 50%) no longer denotes the colour of hsl(40, 100%, 50%)')
+    scaled = any(isinstance(x, ast.BinOp) and isinstance(x.op, ast.Div) and const(x.right) in (360, 360.0) for e in hue for x in ast.walk(e))
+    chk.ob(rid, rel, 'ColorValue._setCssText', 'the hue is scaled from degrees to the unit circle (division by 360)', scaled, 'colorsys expects the hue as a fraction of the circle')
+    l_chain = ' ; '.join(text(e) for e in chain(calls[0].args[1]))
+    s_chain = ' ; '.join(text(e) for e in chain(calls[0].args[2]))
+    chk.ob(rid, rel, 'ColorValue._setCssText', 'lightness (third hsl() component) is passed second, saturation third', 'raw[2]' in l_chain and 'raw[1]' in s_chain and 'raw[1]' not in l_chain and 'raw[2]' not in s_chain, f'l <- {l_chain[:60]}; s <- {s_chain[:60]}', shape=True)
